@@ -107,6 +107,16 @@ void send_one(udp::socket& s, udp::endpoint dst, int len, int layout)
 	++g_nsent;
 }
 
+// a socket option with the name / value layout of IP_MTU_DISCOVER
+struct df_option
+{
+	int v;
+	template <class P> int level(P const&) const { return IPPROTO_IP; }
+	template <class P> int name(P const&) const { return IP_MTU_DISCOVER; }
+	template <class P> void const* data(P const&) const { return &v; }
+	template <class P> std::size_t size(P const&) const { return sizeof(v); }
+};
+
 } // namespace
 
 extern "C" int harness_main()
@@ -192,6 +202,40 @@ extern "C" int harness_main()
 	vp_reach(1);
 	if (when == 0) vp_reach(2);
 	if (what == 2) vp_reach(3);
+#elif SCEN == 3
+	// C20: path MTU and the don't-fragment option
+	udp::socket rs(rios);
+	rs.open(udp::v4(), ec); rs.non_blocking(true);
+	rs.bind(udp::endpoint(RA, 6000), ec);
+	{ int const mtus[3] = {2, 3, 1475}; cfg.mtu = mtus[vp_choose(3)]; }
+	int const dfmode = vp_choose(3);       // 0: never touched, 1: set, 2: set then cleared
+	if (dfmode >= 1) { df_option o; o.v = IP_PMTUDISC_DO; snd.set_option(o, ec); }
+	if (dfmode == 2) { df_option o; o.v = IP_PMTUDISC_DONT; snd.set_option(o, ec); }
+	int const len = cfg.mtu > 1000 ? cfg.mtu + vp_choose(3) - 1 : 1 + vp_choose(4);   // around the limit
+	static unsigned char payload[1500];
+	for (int i = 0; i < len; ++i) payload[i] = (unsigned char)(i * 7 + 1);
+	payload[0] = vp_sym_byte();
+	std::size_t const ret = snd.send_to(asio::buffer(payload, std::size_t(len)), dst, 0, ec);
+	// send_to reports the datagram as sent in every case
+	vp_assert(!ec & (int(ret) == len), 70);
+	static unsigned char rbuf[1600];
+	int got = -1; udp::endpoint from;
+	rs.async_receive_from(asio::buffer(rbuf, 1600), from, [&](error_code const& e, std::size_t n) { if (!e) got = int(n); });
+	s.run();
+	bool const must_drop = dfmode == 1 && len > cfg.mtu;
+	if (must_drop) vp_assert(got == -1, 71);          // silently discarded
+	else
+	{
+		vp_assert(got == len, 72);                      // delivered whole
+		bool same = true;
+		for (int i = 0; i < len && i < got; ++i) same &= rbuf[i] == payload[i];
+		vp_assert(same, 73);
+	}
+	rs.close(ec);
+	s.run();
+	vp_reach(1);
+	if (must_drop) vp_reach(2);
+	if (dfmode == 2) vp_reach(3);
 #else
 	// argument validation
 	udp::socket rs(rios);
